@@ -23,6 +23,11 @@ import (
 //   - a comparison of opOut with an operand (the aliasing idiom: the output *is* that operand).
 // Decoding with the recorded scale / flags is only right if they were written on the path actually taken.
 
+// metaReadExempt: operations whose "output" parameter is documented as an in/out operand.
+var metaReadExempt = map[string]string{
+	"schemes/bgv.(Evaluator).MatchScalesAndLevel": "doc: 'updates the both input ciphertexts to ensure that their scale matches' — ct0 and opOut are both in/out",
+}
+
 func isCiphertextPtr(t types.Type) bool {
 	p, ok := t.(*types.Pointer)
 	if !ok {
@@ -40,10 +45,10 @@ func scanMetaOut(c *core.Ctx) []ob {
 	n := 0
 	c.FuncDecls(func(pk *packages.Package, file *ast.File, fd *ast.FuncDecl) {
 		rel := core.ShortPkg(pk.PkgPath)
-		if !c.IsFixture && !(strings.HasPrefix(rel, "core/rlwe") || strings.HasPrefix(rel, "schemes/") || strings.HasPrefix(rel, "core/rgsw") || strings.HasPrefix(rel, "circuits/")) {
+		if !c.IsFixture && !(strings.HasPrefix(rel, "core/rlwe") || strings.HasPrefix(rel, "schemes/") || strings.HasPrefix(rel, "core/rgsw") || strings.HasPrefix(rel, "circuits/") || strings.HasPrefix(rel, "multiparty")) {
 			return
 		}
-		if fd.Recv == nil || !fd.Name.IsExported() || !strings.Contains(core.RecvTypeName(fd), "Evaluator") || fileIsTestSupport(c.Program, fd.Pos()) {
+		if fd.Recv == nil || !fd.Name.IsExported() || !(strings.Contains(core.RecvTypeName(fd), "Evaluator") || strings.Contains(core.RecvTypeName(fd), "Protocol")) || fileIsTestSupport(c.Program, fd.Pos()) {
 			return
 		}
 		info := pk.TypesInfo
@@ -187,6 +192,82 @@ func scanMetaOut(c *core.Ctx) []ob {
 			}
 			if len(b.Succs) == 0 && b.Live && !isRet && !endsInPanic(info, b) && !s {
 				bad = append(bad, fd.Body.Rbrace)
+			}
+		}
+		// OUTMETAREAD: a metadata field of the output read at a point where, on some path, nothing has defined it yet.
+		// (accumulating operations read their output by design)
+		nm := fd.Name.Name
+		if !(strings.Contains(nm, "ThenAdd") || strings.Contains(nm, "ThenSub") || strings.Contains(nm, "InPlace")) && metaReadExempt[fkey] == "" {
+			readsOutMeta := func(nd ast.Node) (token.Pos, string) {
+				var pos token.Pos
+				var what string
+				lhs := map[ast.Node]bool{}
+				if as, ok := nd.(*ast.AssignStmt); ok {
+					for _, l := range as.Lhs {
+						lhs[unparen(l)] = true
+					}
+				}
+				ast.Inspect(nd, func(x ast.Node) bool {
+					if pos != token.NoPos {
+						return false
+					}
+					switch v := x.(type) {
+					case *ast.FuncLit:
+						return false
+					case *ast.BinaryExpr:
+						// comparisons of the output's metadata with an operand's are checks, not uses
+						if v.Op == token.EQL || v.Op == token.NEQ {
+							return false
+						}
+					case *ast.CallExpr:
+						if s, ok := unparen(v.Fun).(*ast.SelectorExpr); ok && (s.Sel.Name == "Equal" || s.Sel.Name == "Cmp" || s.Sel.Name == "InDelta") {
+							return false
+						}
+					case *ast.SelectorExpr:
+						if lhs[v] || !metaFieldNames[v.Sel.Name] {
+							return true
+						}
+						base := unparen(v.X)
+						if s2, ok := base.(*ast.SelectorExpr); ok && s2.Sel.Name == "MetaData" {
+							base = unparen(s2.X)
+						}
+						if isOut(base) {
+							pos, what = v.Pos(), exprString(v)
+						}
+					}
+					return true
+				})
+				return pos, what
+			}
+			seenRead := false
+			for _, b := range g.Blocks {
+				s, ok := in[b]
+				if !ok {
+					continue
+				}
+				for _, nd := range b.Nodes {
+					if !s && !seenRead {
+						if p, what := readsOutMeta(nd); p != token.NoPos {
+							guarded := false
+							var child ast.Node = nd
+							for q := pm[child]; q != nil; child, q = q, pm[q] {
+								if is, ok := q.(*ast.IfStmt); ok && is.Body == child {
+									ast.Inspect(is.Cond, func(y ast.Node) bool {
+										if be, ok := y.(*ast.BinaryExpr); ok && be.Op == token.EQL && (isOut(be.X) || isOut(be.Y)) {
+											guarded = true
+										}
+										return true
+									})
+								}
+							}
+							if !guarded {
+								seenRead = true
+								out = append(out, violOb("METAOUT", key+"#reads("+what+")", c.Rel(p), fmt.Sprintf("%s reads %s at %s on a path where nothing has yet defined the metadata of the output: the operation uses the scale/flags the receiver object happened to carry instead of the input's", fkey, what, c.Rel(p))))
+							}
+						}
+					}
+					s = s || event(nd)
+				}
 			}
 		}
 		if len(bad) == 0 {
